@@ -1,6 +1,7 @@
 package main
 
 import (
+	"time"
 	"bytes"
 	"context"
 	"encoding/json"
@@ -491,6 +492,14 @@ func c02main(c *Ctx) {
 			blank = true
 		}
 		args, adesc = c02args(r, 12)
+		if r.P(12) {
+			// an instant in the last half microsecond of its second, as an attribute (also under the name "time", which the
+			// text formats print through the timestamp path): a value like any other
+			at := time.Date(2024, 1, 2, 3, 4, 59, 999999500+r.Intn(500), time.FixedZone("", gen.Pick(r, []int{0, 3600, -5*3600 - 1800})))
+			args = append(args, gen.Pick(r, []string{"time", "time", "time", "at"}), at)
+			adesc = append(adesc, "instant-at-the-end-of-its-second")
+			c.R.Add("calls_with_an_instant_in_the_last_half_microsecond_of_its_second", 1)
+		}
 		ctx := context.Background()
 		if ctxKeys && r.Bool() {
 			ctx = context.WithValue(ctx, "rid", "r-"+fmt.Sprint(idx)) //nolint:staticcheck // string keys are what the library documents
